@@ -14,6 +14,7 @@ def run(rep):
     w = rep.world('dev')
     rep.guard(t1, rep, w)
     rep.guard(t2, rep, w)
+    rep.guard(t12, rep, w)
     rep.guard(t3, rep, w)
     rep.guard(t4, rep, w)
     rep.guard(t5, rep, w)
@@ -224,6 +225,84 @@ def t2(rep, w):
         r.check(cyc is None, 'Parser::%s: each loop iteration calls something that scans' % nm,
                 'a loop in Parser::%s can iterate without any call that consumes a token (cycle through blocks %s): the compiler hangs on '
                 'that input' % (nm, cyc), f.loc())
+
+
+def t12(rep, w, prop='C03'):
+    """a loop of the scanner ends at the end of the input: among the exits of every cycle there is one that is taken when nothing is
+    left - the true edge of an is_at_end() test, the false edge of a character-class test (is_digit / is_alpha ... of peek(): the
+    empty string is in no class), the not-equal edge of a comparison of the look-ahead with a literal, or the None edge of a bounded
+    iterator. A loop whose only way out is *finding* a particular character (`loop { if peek() == "*" && peek_next() == "/" { break }
+    advance() }`) spins for ever on a source that ends first: the compiler - and an `import` of such a module - hangs."""
+    r = rep.rule('T12', 'every loop of the scanner has an exit that is taken at the end of the input', floor=4)
+    c = w.yarel
+    n = 0
+    for f in sorted(c.fns.values(), key=lambda x: x.path):
+        if not f.file.endswith('scanner.rs') or f.kind == 'Closure':
+            continue
+        blocks = sorted(f.normal_blocks())
+        succs = f.succs()
+        # natural loops (one per loop header: a helper spliced into a loop body brings its own loops along, nested in the caller's)
+        reach = {b: f.reachable_blocks(b) for b in blocks}
+        dom = f.dominators()
+        preds = f.preds()
+        loops = {}
+        for u in blocks:
+            for h in succs[u]:
+                if h in dom.get(u, ()) or h == u:
+                    body = loops.setdefault(h, {h})
+                    stack = [u]
+                    while stack:
+                        x = stack.pop()
+                        if x in body:
+                            continue
+                        body.add(x)
+                        stack.extend(p_ for p_ in preds[x] if p_ in reach[0])
+        for b, scc in sorted(loops.items()):
+            n += 1
+            org = origins(f)
+            good = []
+            exits = 0
+            for x in sorted(scc):
+                t = f.blocks[x]['t']
+                outs = [s_ for s_ in succs[x] if s_ not in scc and s_ in reach[0]]
+                if not outs:
+                    continue
+                exits += 1
+                if t['t'] != 'switch':
+                    continue
+                pl = op_place(t['d'])
+                if pl is None:
+                    continue
+                zero = [cb for v_, cb in t['cases'] if v_ == 0]
+                false_out = bool(zero) and zero[0] not in scc
+                true_out = t['else'] not in scc
+                qs = org.get(pl['l'], ())
+                negated = any(s_.get('d', {}).get('l') == pl['l'] and (s_.get('r') or {}).get('rv') == 'un' and s_['r'].get('op') == 'Not' for s_ in f.blocks[x]['s'])
+                for q in qs:
+                    if q[0][0] != 'call':
+                        continue
+                    nm = q[0][2]
+                    tail = nm.rsplit('::', 1)[-1]
+                    if '#discr' in q and ('Iterator' in nm or nm.endswith('::next')):
+                        good.append('%s exhausted' % tail)       # for x in a..b / chars(): bounded
+                    elif nm == SC + 'is_at_end':
+                        if (true_out and not negated) or (false_out and negated):
+                            good.append('is_at_end')
+                    elif nm.startswith('yarel::scanner::is_') or tail in ('is_ascii_digit', 'is_ascii_alphabetic', 'is_ascii_hexdigit', 'is_alphanumeric', 'is_ascii_alphanumeric'):
+                        if (false_out and not negated) or (true_out and negated):
+                            good.append('not ' + tail)
+                    elif tail == 'eq' and ('PartialEq' in nm or 'cmp' in nm):
+                        if (false_out and not negated) or (true_out and negated):
+                            good.append('look-ahead differs from a literal')
+                    elif tail == 'ne' and ('PartialEq' in nm or 'cmp' in nm):
+                        if (true_out and not negated) or (false_out and negated):
+                            good.append('look-ahead differs from a literal')
+            key = '%s: loop through bb%d' % (f.path.replace('yarel::scanner::', ''), min(scc))
+            r.check(bool(good) or exits == 0, key + (' (%s)' % good[0] if good else ''),
+                    'a loop in %s has no exit that is taken at the end of the input (its exits wait for a particular character): on a source that ends inside the construct '
+                    'the scanner never returns, so compile() - and an import of such a module - hangs' % f.path, f.loc(f.blocks[min(scc)]['t'].get('sp')))
+    if n < 4:
+        raise Broken(prop, 'floor', 'loops found in scanner.rs: %d' % n)
 
 
 def quiet_cycle(f, quiet):
